@@ -22,6 +22,8 @@ asynq.tools.utime = lambda: CLOCK[0]      # the logical clock of Cache.tla (Tick
 
 
 class VErr(Exception):
+    __bool__ = lambda self: False       # unusual but legal: a falsy exception object
+
     def __init__(self, v):
         Exception.__init__(self, "body raised %r" % (v,))
         self.v = v
